@@ -112,7 +112,14 @@ def _nanmax(a, axis=None, keepdims=None):
 
 def nanmean(x, /, *, axis=None, dtype=None, keepdims=False, split_every=None):
     """Compute the arithmetic mean along the specified axis, ignoring NaNs."""
-    dtype = dtype or x.dtype
+    if dtype is None:
+        if isdtype(x.dtype, ("real floating", "complex floating")):
+            dtype = x.dtype
+        else:
+            # the mean of integers is not an integer: use the default floating-point dtype (as var does)
+            dtype = nxp.__array_namespace_info__().default_dtypes(device=x.device)[
+                "real floating"
+            ]
     # TODO(#658): Should these be default dtypes?
     if isdtype(x.dtype, "complex floating"):
         intermediate_dtype = [("n", nxp.int64), ("total", nxp.complex128)]
